@@ -167,19 +167,21 @@ pub fn oracle_c07(cfg: &EwCfg, tr: &EwTrace, expect_echo: bool) -> Vec<Violation
     }
     // negotiated limits: once both ends report the connection, each sender's limits are the ones its peer is configured with
     // (receive allocation rounded up to whole fragments, rate = min(own max_send_rate, peer max_receive_rate))
-    let ceil = |n: usize| (n + 1447) / 1448 * 1448;
+    // limits travel in 32-bit handshake fields (values beyond are capped at 2^32-1); an own allocation limit too large to be rounded up stays below usize::MAX
+    let ceil = |n: usize| n.saturating_add(1447) / 1448 * 1448;
+    let w32 = |n: usize| n.min(u32::MAX as usize);
     for i in 0..n {
         if tr.gens[i] != 1 { continue; }
         if let Some(o) = tr.obs.iter().find(|o| o.c_active[i] && o.s_active[i] && o.c_probe[i].is_some() && o.s_probe[i].is_some()) {
             let (cp, sp) = (o.c_probe[i].as_ref().unwrap(), o.s_probe[i].as_ref().unwrap());
             let (cc, sc) = (&cfg.clients[i], &cfg.server);
             let checks: [(&str, u64, u64); 6] = [
-                ("client send allocation limit vs. server max_receive_alloc", cp.tx_alloc_limit as u64, ceil(sc.max_receive_alloc) as u64),
-                ("server send allocation limit vs. client max_receive_alloc", sp.tx_alloc_limit as u64, ceil(cc.max_receive_alloc) as u64),
+                ("client send allocation limit vs. server max_receive_alloc", cp.tx_alloc_limit as u64, ceil(w32(sc.max_receive_alloc)) as u64),
+                ("server send allocation limit vs. client max_receive_alloc", sp.tx_alloc_limit as u64, ceil(w32(cc.max_receive_alloc)) as u64),
                 ("client receive allocation limit vs. its own max_receive_alloc", cp.rx_alloc_limit as u64, ceil(cc.max_receive_alloc) as u64),
                 ("server receive allocation limit vs. its own max_receive_alloc", sp.rx_alloc_limit as u64, ceil(sc.max_receive_alloc) as u64),
-                ("client send rate ceiling vs. min(client max_send_rate, server max_receive_rate)", cp.tx_rate_limit as u64, (cc.max_send_rate as u64).min(sc.max_receive_rate as u64)),
-                ("server send rate ceiling vs. min(server max_send_rate, client max_receive_rate)", sp.tx_rate_limit as u64, (sc.max_send_rate as u64).min(cc.max_receive_rate as u64)),
+                ("client send rate ceiling vs. min(client max_send_rate, server max_receive_rate)", cp.tx_rate_limit as u64, (w32(cc.max_send_rate) as u64).min(w32(sc.max_receive_rate) as u64)),
+                ("server send rate ceiling vs. min(server max_send_rate, client max_receive_rate)", sp.tx_rate_limit as u64, (w32(sc.max_send_rate) as u64).min(w32(cc.max_receive_rate) as u64)),
             ];
             for (what, got, want) in checks {
                 if got != want { out.push(viol("C07.limits", "C07.limits".into(), format!("connection {} (round {}): {}: {} in force, {} configured", i, o.round, what, got, want))); break; }
@@ -385,6 +387,8 @@ pub fn oracle_c13_ew(cfg: &EwCfg, tr: &EwTrace) -> Vec<Violation> {
     for i in 0..cfg.clients.len() {
         for dir in 0..2usize {
             let c = if dir == 0 { cfg.clients[i].max_send_rate.min(cfg.server.max_receive_rate) } else { cfg.server.max_send_rate.min(cfg.clients[i].max_receive_rate) } as f64;
+            // the property speaks about ceilings of at least one frame per second
+            if c < 1472.0 { continue; }
             let (src, dst) = if dir == 0 { (caddr(i), saddr()) } else { (saddr(), caddr(i)) };
             let ems: Vec<&Dgram> = tr.wire.iter().filter(|d| !d.injected && d.src == src && d.dst == dst && matches!(d.frame, Some(Frame::DataFrame(_)) | Some(Frame::AckFrame(_)) | Some(Frame::SyncFrame(_)))).collect();
             if ems.is_empty() { continue; }
